@@ -19,13 +19,17 @@ ASSUMPTIONS = [
     "Inputs change only between clock edges. In a seeded third of the runs the four domains have resets that are pulsed at "
     "arbitrary instants: FFBuffer registers are reset-less, so nothing may change.",
     "A buffer whose direction its port cannot serve must be refused with ValueError when it is constructed.",
+    "Vendor ride-along (a quarter of the runs; iCE40, ECP5, MachXO2, Gowin, Xilinx 7-series / Spartan-6, Altera, QuickLogic): a buffer on a "
+    "hand-made real port is elaborated by the platform's buffer code; a port without pin metadata must be treated like one whose "
+    "metadata has no attributes, and an exception may only come from the platform code itself (a refusal), not from the core layers.",
     "Base-port bits not covered by the composed port are expected to keep their initial values.",
 ]
 COMPONENTS = {"real": ["amaranth.lib.io.SimulationPort algebra (__getitem__/__add__/__invert__)", "amaranth.lib.io.Buffer",
                        "amaranth.lib.io.FFBuffer", "amaranth.hdl elaboration", "amaranth.sim"],
               "stub": ["PermSet scheduler seam", "clock driver", "per-bit map model over the base ports"]}
 EXPECTED_PROBES = ("coincide", "inactive", "glitch-in", "loopback", "inverted_bits", "sliced", "concatenated", "ff_o_edge",
-                   "ff_i_edge", "reset", "wrapped_real_buffer", "incompatible_buffers_refused", "real_port_algebra")
+                   "ff_i_edge", "reset", "wrapped_real_buffer", "incompatible_buffers_refused", "real_port_algebra",
+                   "vendor_buffer_elaborated", "vendor_buffer_refused")
 
 DOMS = ["sync", "di", "do", "x"]
 
@@ -152,6 +156,9 @@ def gen_case(seed, tier):
         config["i_domain"] = cfg.choice([None, "di", "do"]) if bdir != "o" else None
         config["o_domain"] = cfg.choice([None, "do", "di"]) if bdir != "i" else None
     config["edges"] = {dn: cfg.choice(["pos", "neg"]) for dn in DOMS}
+    config["vendor"] = ({"platform": cfg.choice(["ice40", "ecp5", "machxo2", "gowin", "xc7", "xc6s", "altera", "quicklogic"]),
+                         "kind": cfg.choice(["se", "se", "diff"]), "dir": cfg.choice(["i", "o", "io"]), "width": cfg.choice([1, 2, 3]),
+                         "invert": cfg.randrange(8), "buffer": cfg.choice(["Buffer", "FFBuffer"])} if cfg.random() < 0.25 else None)
     # a companion registered output buffer on bits of a base port that the composed port leaves free: two buffers then
     # drive disjoint slices of the same port signals, possibly at the very same clock edge
     config["companion"] = None
@@ -342,8 +349,64 @@ def run_case(case):
                 continue
             raise Violation("input_plus_output_accepted", -1, {})
 
+    def vendor_buffers():
+        """Buffers on hand-made real ports, elaborated by the vendor platforms' own buffer code (no toolchain runs):
+        (1) a port without pin metadata must be treated exactly like one whose metadata carries no attributes;
+        (2) a refusal is raised by the platform code itself - an exception escaping from the core HDL layers underneath it means
+            the platform handed them something malformed."""
+        import traceback
+        import warnings
+        from amaranth import vendor
+        from amaranth.hdl import IOPort, Module, ClockDomain, Fragment
+        from amaranth.build.res import PortMetadata
+        table = {
+            "ice40": (vendor.SiliconBluePlatform, dict(device="iCE40HX8K", package="CT256"), {}),
+            "ecp5": (vendor.LatticePlatform, dict(device="LFE5U-25F", package="BG381", speed="6"), {"toolchain": "Trellis"}),
+            "machxo2": (vendor.LatticePlatform, dict(device="LCMXO2-1200HC", package="TG100", speed="4"), {"toolchain": "Diamond"}),
+            "gowin": (vendor.GowinPlatform, dict(part="GW1NR-LV9QN88PC6/I5", family="GW1NR-9C"), {"toolchain": "Apicula"}),
+            "xc7": (vendor.XilinxPlatform, dict(device="xc7a35ti", package="csg324", speed="1L"), {"toolchain": "Vivado"}),
+            "xc6s": (vendor.XilinxPlatform, dict(device="xc6slx9", package="tqg144", speed="2"), {"toolchain": "ISE"}),
+            "altera": (vendor.AlteraPlatform, dict(device="5CSEBA6", package="U23", speed="I7"), {}),
+            "quicklogic": (vendor.QuicklogicPlatform, dict(device="ql-eos-s3", package="wlcsp"), {}),
+        }
+        vb = config["vendor"]
+        base, attrs_, kw = table[vb["platform"]]
+        plat_cls = type("P", (base,), dict(attrs_, resources=[], connectors=[]))
+        width = vb["width"]
+
+        def attempt(meta):
+            def md(tag):
+                return [PortMetadata(tag + str(k), {}) for k in range(width)] if meta else None
+            inv = [bool((vb["invert"] >> k) & 1) for k in range(width)]
+            if vb["kind"] == "se":
+                rp = io.SingleEndedPort(IOPort(width, name="pad", metadata=md("A")), invert=inv, direction=vb["dir"])
+            else:
+                rp = io.DifferentialPort(IOPort(width, name="padp", metadata=md("A")), IOPort(width, name="padn", metadata=md("B")),
+                                         invert=inv, direction=vb["dir"])
+            mm = Module()
+            mm.domains.sync = ClockDomain()
+            mm.submodules.b = getattr(io, vb["buffer"])(vb["dir"], rp)
+            with warnings.catch_warnings():
+                warnings.simplefilter("ignore")
+                try:
+                    Fragment.get(mm, plat_cls(**kw))
+                except Exception as e:
+                    last = traceback.extract_tb(e.__traceback__)[-1].filename
+                    return type(e).__name__, last.split("amaranth/")[-1]
+            return "ok", None
+        with_meta, without = attempt(True), attempt(False)
+        for res_, where in (with_meta, without):
+            if res_ != "ok" and not (where.startswith("vendor/") or where.startswith("lib/io")):
+                raise Violation("vendor_buffer_crash", -1, dict(vb, raised=res_, where=where))
+        if with_meta[0] != without[0]:
+            raise Violation("port_without_metadata_treated_differently", -1, dict(vb, with_metadata=list(with_meta),
+                                                                                  without_metadata=list(without)))
+        P["vendor_buffer_" + ("elaborated" if with_meta[0] == "ok" else "refused")] = 1
+
     def pre():
         real_port_algebra()
+        if config.get("vendor"):
+            vendor_buffers()
         # static algebra checks on the composed port
         if len(port) != n:
             raise Violation("composed_width", -1, {"len": len(port), "expected": n})
